@@ -148,6 +148,10 @@ def check(name, s):
 def evaluate(case):
     if case.get("kind") == "fs":
         return _fs_checks()
+    if case.get("kind") == "registry":
+        r = Result()
+        _run_registry(r)
+        return list(r.failures)
     return [failure(sig, case, d) for sig, d in check(case["type"], case["s"])[1]]
 
 
@@ -303,8 +307,37 @@ def _run_confusables(res):
     res.exhaustive_parts.append("accepted words with one letter replaced by each non-ASCII character whose case mapping yields that letter")
 
 
+def _run_registry(res):
+    """The registry finds a stock datatype under every letter-case spelling of its name (names
+    without a dot are looked up as basic-keys) and hands out the same conversion every time."""
+    dt = _mods()
+    reg = dt.Registry()
+    for name in sorted(dt.stock_datatypes):
+        base = reg.get(name)
+        for variant in {name.upper(), name.title(), name.swapcase(), name}:
+            res.evaluations += 1
+            res.nontrivial()
+            try:
+                got = reg.get(variant)
+            except Exception as e:  # noqa
+                res.fail("registry:lookup-raises", {"kind": "registry", "s": variant}, "%s: %r" % (variant, e))
+                continue
+            if got is not base:
+                res.fail("registry:case-variant-gives-another-conversion", {"kind": "registry", "s": variant}, variant)
+        if dt.Registry().get(name) is not dt.stock_datatypes[name]:
+            res.fail("registry:not-the-stock-conversion", {"kind": "registry", "s": name}, name)
+    for bad in ("no-such-type", "basic key", "1key", ""):
+        res.evaluations += 1
+        try:
+            reg.get(bad)
+        except Exception:  # noqa
+            continue
+        res.fail("registry:unknown-name-found", {"kind": "registry", "s": bad}, repr(bad))
+
+
 def _run_lists(res):
     _run_confusables(res)
+    _run_registry(res)
     for w in ("yes", "true", "on", "no", "false", "off", "y", "n", "1", "0", "t", "f", "ye",
               "tru", "of", "yess", "onn", "falsee"):
         for v in _case_variants(w):
